@@ -2,8 +2,8 @@
    the sequence of callback invocations is the preorder listing of the tree of nodes below the
    root, directory entries in name order, symbolic links not followed, with the permission
    effects of an unprivileged user (an unreadable directory is reported once more with the
-   error and not entered; below a directory that may be read but not searched the entries are
-   listed and every sub-directory is reported unreadable). *)
+   error and not entered; below a directory - the root included - that may be read but not
+   searched the entries are listed and every sub-directory is reported unreadable). *)
 From Coq Require Import Sorting.Sorted Sorting.Permutation.
 From Avfs Require Import Base PathModel PathSpec PathProofs PathCleanProofs PathIterProofs PathMatch
   MemFS MemFile Walk WalkInst WalkResolve ReadDirProofs.
@@ -145,10 +145,8 @@ Section NWalk.
   Definition mkv (cs : list str) (d : dent) (e : option ekind) : visit ekind :=
     {| vi_path := abs_path cs; vi_ent := Some d; vi_err := e |}.
 
-  (* search permission for the entries of the directory at components cs: MemFS never checks it on the
-     root directory of the view *)
-  Definition child_flag (cs : list str) (m : meta) : bool :=
-    match cs with [] => true | _ => check_permission m OpenLookup u end.
+  (* search permission for the entries of the directory at components cs (mode m) *)
+  Definition child_flag (cs : list str) (m : meta) : bool := check_permission m OpenLookup u.
 
   (* the preorder listing of the nodes below c, reached as "/cs"; [flag]: that path resolves *)
   Fixpoint nwalk (fuel : nat) (cs : list str) (flag : bool) (c : nat) (d : dent) : list (visit ekind) :=
@@ -201,12 +199,18 @@ Section NWalk.
 
   Lemma resolves_descend (cs : list str) (c : nat) (ch : list (str * nat)) (m : meta) :
     resolves s v cs c -> get h c = Some (NDir ch m) -> child_flag cs m = true ->
-    descend h u r0 cs = Some c.
+    descend h u r0 cs = Some c /\ rootx s v = true.
   Proof.
-    intros [(-> & ->)|(ns & n & dl & -> & Hd & Hl)] Hg Hf; [reflexivity|].
-    rewrite descend_app. fold h u r0 in Hd. rewrite Hd. cbn [descend]. fold h in Hl. rewrite Hl, Hg.
-    unfold child_flag in Hf. destruct ns; cbn [app] in Hf; rewrite Hf; reflexivity.
+    intros [(-> & ->)|(ns & n & dl & -> & Hrx & Hd & Hl)] Hg Hf.
+    - split; [reflexivity|]. unfold rootx, root_x. unfold h, r0 in *. rewrite Hg. exact Hf.
+    - split; [|exact Hrx].
+      rewrite descend_app. fold h u r0 in Hd. rewrite Hd. cbn [descend]. fold h in Hl. rewrite Hl, Hg.
+      unfold child_flag in Hf. rewrite Hf. reflexivity.
   Qed.
+
+  Lemma child_flag_root (ch : list (str * nat)) (m : meta) :
+    get h r0 = Some (NDir ch m) -> rootx s v = child_flag [] m.
+  Proof. intros Hg. unfold rootx, root_x. unfold h, r0 in *. rewrite Hg. reflexivity. Qed.
 
   Lemma nwalk_correct : forall (fuel : nat) (cs : list str) (flag : bool) (c : nat) (d : dent) (log : list (visit ekind)),
     desc c -> rank c < fuel -> Forall good_comp cs -> length cs + rank c < SEARCH_FUEL ->
@@ -258,13 +262,14 @@ Section NWalk.
           + reflexivity.
           + subst flag.
             destruct (child_flag cs m) eqn:Hcf.
-            * right. exists cs, n1, c. split; [reflexivity|]. split.
-              -- apply (resolves_descend Hflag Hnd Hcf).
-              -- unfold children. fold h. rewrite Hnd. apply alookup_nodup; [eapply (wf_nodup Hwf); eassumption|exact Hin].
-            * destruct Hflag as [(-> & _)|(ns & nb & dl & -> & Hd & Hl)]; [discriminate|].
-              exists ns, nb, n1, dl, c, m, ch. split; [rewrite <- app_assoc; reflexivity|].
-              split; [exact Hd|]. split; [exact Hl|]. split; [exact Hnd|].
-              unfold child_flag in Hcf. destruct ns; exact Hcf.
+            * destruct (resolves_descend Hflag Hnd Hcf) as (Hde & Hrx).
+              right. exists cs, n1, c. split; [reflexivity|]. split; [exact Hrx|]. split; [exact Hde|].
+              unfold children. fold h. rewrite Hnd. apply alookup_nodup; [eapply (wf_nodup Hwf); eassumption|exact Hin].
+            * destruct Hflag as [(-> & ->)|(ns & nb & dl & -> & Hrx & Hd & Hl)].
+              -- left. split; [discriminate|]. rewrite (child_flag_root Hnd). exact Hcf.
+              -- right. split; [exact Hrx|].
+                 exists ns, nb, n1, dl, c, m, ch. split; [rewrite <- app_assoc; reflexivity|].
+                 split; [exact Hd|]. split; [exact Hl|]. split; [exact Hnd|]. exact Hcf.
           + eapply (wf_live Hwf); eassumption. }
       unfold P in *. destruct flag.
       + rewrite (@mem_read_dir_resolved cr s v Hos cs c ch m Hg Hlen' Hflag Hnd). fold u.
@@ -557,7 +562,7 @@ Section WalkAll.
   Proof. unfold check_permission. rewrite Hadmin. reflexivity. Qed.
 
   Lemma admin_flag (cs : list str) (m : meta) : child_flag v cs m = true.
-  Proof. unfold child_flag. destruct cs; [reflexivity|apply admin_perm]. Qed.
+  Proof. unfold child_flag. apply admin_perm. Qed.
 
   Lemma nwalk_noerr_admin : forall f cs c d x, In x (nwalk s v f cs true c d) -> vi_err x = None.
   Proof.
